@@ -47,6 +47,7 @@ class SymExec:
         self.loc = {}      # local -> term
         self.mem = {}      # place key (param, fields) -> term
         self.refs = {}     # local -> place key it points to (for &/&mut temporaries)
+        self.lrefs = {}    # local -> plain local it points to
         self.conds = []
         self.calls = []
         self.ret = None
@@ -145,12 +146,21 @@ class SymExec:
                 self.refs[dst["l"]] = key
                 self.loc[dst["l"]] = ("ref", self.key_name(key))
                 return
+            # reference to a plain local (or a reborrow of one)
+            rp = rv["place"]
+            if not dst.get("p"):
+                if not rp.get("p"):
+                    self.lrefs[dst["l"]] = rp["l"]
+                elif rp["l"] in self.lrefs and all(e["k"] == "deref" for e in rp["p"]):
+                    self.lrefs[dst["l"]] = self.lrefs[rp["l"]]
             self.write(dst, ("ref", self.read_place(rv["place"])))
             return
         if k == "use":
             sp = op_place(rv["op"])
             if sp is not None and not sp.get("p") and sp["l"] in self.refs and not dst.get("p"):
                 self.refs[dst["l"]] = self.refs[sp["l"]]
+            if sp is not None and not sp.get("p") and sp["l"] in self.lrefs and not dst.get("p"):
+                self.lrefs[dst["l"]] = self.lrefs[sp["l"]]
             self.write(dst, self.op(rv["op"]))
             return
         if k == "aggregate":
@@ -181,12 +191,16 @@ class SymExec:
         args = t["args"]
         argt = [self.op(a) for a in args]
         argkeys = []
+        arglocals = []
         for a in args:
             p = op_place(a)
             key = None
             if p is not None and not p.get("p") and p["l"] in self.refs:
                 key = self.refs[p["l"]]
             argkeys.append(key)
+            arglocals.append(self.lrefs.get(p["l"]) if p is not None and not p.get("p") else None)
+        # references to locals read the local's current term
+        argt = [self.loc.get(al, tm) if al is not None else tm for al, tm in zip(arglocals, argt)]
         dest = t["dest"]
         if short.endswith("mem::swap") and argkeys[0] is not None and argkeys[1] is not None:
             a, b = self.read_key(argkeys[0]), self.read_key(argkeys[1])
@@ -208,7 +222,10 @@ class SymExec:
             self.write(dest, self.read_key(argkeys[0]))
             return
         if short.endswith("clone::Clone::clone"):
-            self.write(dest, argt[0])
+            t0 = argt[0]
+            if isinstance(t0, tuple) and t0[0] == "ref":
+                t0 = t0[1]
+            self.write(dest, t0)
             return
         # opaque call: result is an application; &mut arguments are updated by an application too
         fname = short.split("::")[-1] if "::" in short else short
@@ -224,6 +241,10 @@ class SymExec:
                 ty = self.body.place_ty(p)
                 if ty.k == "ref" and ty.d.get("mut"):
                     self.mem[key] = ("upd", full, i) + tuple(vals)
+            elif p is not None and arglocals[i] is not None:
+                ty = self.body.place_ty(p)
+                if ty.k == "ref" and ty.d.get("mut"):
+                    self.loc[arglocals[i]] = ("upd", full, i) + tuple(vals)
         self.write(dest, res)
 
     def run(self, path):
